@@ -694,7 +694,7 @@ def parts(tier):
                  note="metamorphic: the same two-level history with all commit times inside an hour and spread over up to 20 days")]
 
 
-TECHNIQUE = "model-based property testing (Hypothesis): generated component / parent histories with version pins on an in-memory git back-end, compared with a set-based reference of 'first parent build that ships the component build'; generated dependency graphs for the analysis order"
+TECHNIQUE = "model-based property testing (Hypothesis): generated component / parent histories with version pins on an in-memory git back-end, compared with a set-based reference of 'first parent build that ships the component build'; generated dependency graphs for the analysis order; metamorphic relation packed vs spread commit times"
 LEVEL_TEXT = ("Exploration on the sub-domain where the statement is unambiguous (tree-shaped parent history, single linear component "
               "branch): ~6k generated two-repository histories per quick run (240k thorough) - the included_at records of every "
               "report-related component build are compared as multisets with the reference, parent builds that ship new component "
